@@ -403,9 +403,19 @@ class Run:
         for v in self.rec.G.values():
             if not v.startswith("!") and not all(math.isfinite(t) for t in hexv(v)):
                 return True
+        # (the differencing routine returns NaN = 0/0 for a variable fixed by lb == ub, which the package then reports as zero: only
+        # the components of the free variables say something about the user's objective)
+        fixed = None
+        try:
+            lb_, ub_ = own_bounds(np.asarray(self.kwargs["x0"], dtype=float), self.kwargs.get("bounds"))
+            fixed = lb_ == ub_
+        except Exception:  # noqa: BLE001
+            fixed = None
         for (_, _, _, g) in self.rec.FD:
-            if not all(math.isfinite(t) for t in hexv(g)):
-                return True
+            gv = hexv(g)
+            for j_, t in enumerate(gv):
+                if not math.isfinite(t) and not (fixed is not None and len(gv) == fixed.size and fixed[j_]):
+                    return True
         return False
 
     def user_raised(self) -> bool:
